@@ -550,6 +550,24 @@ fn shapes(tier: Tier) -> Vec<Shape> {
             v.push(Shape { name: format!("arity-off-by-{}-{}", extra, name), src, expect: None, debug_too: true, must_fail: true });
         }
     }
+    // a fault at the bottom of 10^5 live calls (and at 10^3, 3*10^4): reporting it must not need
+    // native stack in proportion to the FML call depth
+    for depth in [1000usize, 30_000, 100_000] {
+        let faults: Vec<(&str, &str)> = vec![
+            ("unknown-variable", "nosuchvariable"),
+            ("unknown-method", "1.nosuchmethod(2)"),
+            ("unknown-function", "nosuchfunction(1)"),
+            ("wrong-arity", "down()"),
+            ("index-out-of-range", "array(1, 0)[5]"),
+            ("int-plus-bool", "1 + true"),
+            ("print-mismatch", "print(\"~ ~\", 1)"),
+            ("division-by-zero", "1 / 0"),
+        ];
+        for (name, fault) in faults {
+            let src = format!("function down(n) -> if n == 0 then {} else down(n - 1) + 1; print(\"before\\n\"); print(\"~\\n\", down({})); print(\"after\\n\")", fault, depth);
+            v.push(Shape { name: format!("fault-{}-at-call-depth-{}", name, depth), src, expect: None, debug_too: true, must_fail: true });
+        }
+    }
     // acyclic chains through array elements, fields and parent links
     for n in [10usize, 100, 1000] {
         let mut open = String::new();
